@@ -444,7 +444,7 @@ Definition comp_matches (c : comp) (o : ocomp) : bool :=
   match c with
   | CDatum r => (kind =? 0) && rng_eqb r rg
   | CRedeemer k r => (kind =? 1) && (fst k =? a) && (snd k =? b) && rng_eqb r rg
-  | CScript ty r => (kind =? 2) && (ty =? a) && rng_eqb r rg
+  | CScript ty r => (kind =? 2) && rng_eqb r rg   (* the observed map is keyed by the hash only *)
   end.
 Definition comps_eqb (data : bytes) (cs : list comp) (os : list ocomp) : bool :=
   let cs' := dedup_last data cs in
